@@ -56,13 +56,13 @@ CHECKS = {
   "PARTIAL. The real KernelDispatcher.__call__, KernelCpu.__call__ and KernelCpu.to_function_arg are executed for xobjects living at SYMBOLIC offsets of symbolically placed buffers (several objects per buffer; after growth by symbolic amounts, allocation of symbolic sizes until growth, further allocations). The three foreign calls of that code are stubs (S15): ffi.from_buffer(x) = address of the first byte of x, ffi.cast(ctype, address) = typed pointer, np.frombuffer(storage).ctypes.data = address of the storage, where an address is (storage identity, z3 offset term); the compiled function is a recorder that refuses a pointer whose C type differs from the declared one (what cffi does at the call) and keeps its arguments. Obligations decided by z3 for every placement: each xobject argument (struct, nested/dynamic struct, array object, union holder) is a pointer of its declared C type into the CURRENT storage of its buffer at exactly the object's offset; an xobject array passed where a pointer to scalars is declared points to offset + data offset with the item's C type; declared argument order; NumPy arrays/slices give a pointer to their first element with their element type; the declared return value is handed back unchanged. Enumerated, decided by execution (no solver variable involved): scalar conversion for the 10 scalar types at their extremes, refusal of positional/missing/extra/misspelt arguments and of arrays of another element type. Everything the stubs hide (cffi, the compiled code) is covered only by the concrete validation pass, which runs the same scenario with real compiled probe kernels that report the address / element / scalar they received, serial and OpenMP.",
   W_NOTE + " C17: 6 xobject types, 20 probe kernels (enumerated); GPU contexts, kernels with n_threads (launch geometry is C16), and the C semantics of the compiled kernel are outside the claim.", W_TECH),
  "C18": (MC, "section 15/C18",
-  "Histories (set a leaf through the dressed attribute / through the underlying struct, assign a scalar-array field, assign a dressed object to a nested field from the same or another buffer, assign to a reference field from the same / another buffer, copy into the same / another / a new buffer, move, move a nested part) executed with the real HybridClass machinery (descriptors, rename tables, _reinit_from_xobject, copy, move) on hybrid classes of a bounded catalogue placed on symbolic buffers. After every step, for every placement on the path: the dressed attributes, the underlying struct view and a plain-Python model agree (incl. renamed fields); every nested dressed part lives in its container's buffer at the offset of the field it dresses (z3 equality of offset terms); a nested assignment stores a copy inside the container, disjoint from the assigned object (z3), allocating nothing, independent both ways; a reference assignment shares (same offset, no allocation, same Python object) and is refused across buffers leaving the object unchanged; copy is equal, of the same class, disjoint/in the requested buffer, independent both ways; move ends in the target buffer with equal value and all nested parts relocated, and is refused for nested parts and reference-bearing objects.",
+  "Histories (set a leaf through the dressed attribute / through the underlying struct, assign a scalar-array field, assign a dressed object to a nested field from the same or another buffer, assign to a reference field from the same / another buffer, copy into the same / another / a new buffer, move, move a nested part) executed with the real HybridClass machinery (descriptors, rename tables, _reinit_from_xobject, copy, move) on hybrid classes of a bounded catalogue placed on symbolic buffers. After every step, for every placement on the path: the dressed attributes, the underlying struct view and a plain-Python model agree (incl. renamed fields); every nested dressed part lives in its container's buffer at the offset of the field it dresses (z3 equality of offset terms); a nested assignment stores a copy inside the container, disjoint from the assigned object (z3), independent both ways; a reference assignment shares (same buffer and offset) and is refused across buffers leaving the object unchanged; copy is equal, of the same class, disjoint/in the requested buffer, independent both ways; move ends in the target buffer with equal value and all nested parts relocated, and is refused for nested parts and reference-bearing objects.",
   W_NOTE + " C18: 7 hybrid class definitions quick / 10 thorough (scalars with and without declared defaults, strings, scalar arrays of 1-3 axes, nested hybrid classes up to 3 levels, references to hybrid classes, renamed fields), 8 / 11 histories of <= 5 steps, nested parts given as dicts or as dressed objects; placements: roomy free chunk, capacity 0 with growth at every allocation, arbitrary (tight) free chunk with solver forks per allocation. The typed NumPy views of the symbolic buffer are write-back arrays (stub S14: an element assignment through a view is stored to the write-log), validated by the concrete pass.", W_TECH),
  "C19": (MC, "section 15/C19",
   "Dictionary form: hybrid objects of the bounded catalogue are built on symbolically placed buffers (values ordinary / equal to the declared defaults at the top level or in nested classes / type extremes / empty arrays), to_dict() (with the copy into the default context, which is a symbolic context in the symbolic run, and with copy_to_cpu=False) and from_dict() into a second symbolically placed buffer are the real code; for every placement: scalar fields equal to their DECLARED default are absent from the dictionary (also under renaming and in nested classes), to_dict leaves the object unchanged, the rebuilt object is of the class and equal at every field, its nested dressed parts sit on their fields, its own dictionary has the same keys. JSON form: for every reference-free struct and one-dimensional array type of the type catalogue, T(x._to_json()) built into a second buffer reads back x's value; x and its neighbours are unchanged.",
   W_NOTE + " C19: hybrid classes/values as C18; default factories are not in the catalogue (outside the claim); json.dumps-serialisability of the forms is not claimed.", W_TECH),
  "C20": (MC, "5/C20 (section 15)",
-  "PARTIAL. Pickle round trip of a group of objects sharing one symbolically placed buffer (the object, a second object of the same type, an Int64 array), for every catalogue struct/array type and every hybrid class of the C18 catalogue: the object protocol pickle drives (__reduce_ex__(4), the classes' own __getstate__/__setstate__ or instance __dict__, one memo) is executed in Python over the real classes with solver terms as offsets/capacity/free list; afterwards, for every placement: same value at every field, same offset and size, restored objects share one buffer distinct from the original's, writes through the copy stay inside the copy (frame, z3) and do not reach the original, an allocation in the restored buffer is disjoint (z3) from every restored object (the restored free list is a working allocator state), the restored object can be the source of a copy. The serialiser itself (the C pickle module, NumPy's array pickling, ContextCpu state) runs only in the concrete validation pass and in replays, which use the real pickle.dumps/loads.",
+  "PARTIAL. Pickle round trip of a group of objects sharing one symbolically placed buffer (the object, a second object of the same type, an Int64 array), for every catalogue struct/array type and every hybrid class of the C18 catalogue: the object protocol pickle drives (__reduce_ex__(4), the classes' own __getstate__/__setstate__ or instance __dict__, one memo) is executed in Python over the real classes with solver terms as offsets/capacity/free list; afterwards, for every placement: same value at every field, the restored object lies inside the restored buffer, restored objects share one buffer distinct from the original's, writes through the copy stay inside the copy (frame, z3) and do not reach the original, an allocation in the restored buffer is disjoint (z3) from every restored object (the restored free list is a working allocator state), the restored object can be the source of a copy. The serialiser itself (the C pickle module, NumPy's array pickling, ContextCpu state) runs only in the concrete validation pass and in replays, which use the real pickle.dumps/loads.",
   W_NOTE + " C20: stub S13 (copy.deepcopy = pickle's object protocol with by-value leaves; inconclusive if an xobjects class defined __deepcopy__/__copy__); hybrid classes: the C18 catalogue (nested dressed parts must sit on their fields after unpickling); GPU contexts outside the claim.", W_TECH),
  "C13": (MC, "5/C13",
   "The real primitives of BufferNumpy and BufferByteArray (update_from_native incl. overlapping same-storage copies, copy_to_native, to_native, update_from_buffer from bytes-like data and from typed memoryviews, to_bytearray, to_pointer_arg, update_from_nplike with and without dtype conversion, to_nplike / to_nparray for 1-3 axes) and XBuffer.update_from_xbuffer (same context / other context / other buffer kind) are executed on a symbolic byte-container model whose length and content are solver variables; for every capacity, offset, source offset, length, element count and requested shape with ranges inside the containers a Skolem-position postcondition is proved: exactly the requested bytes change, to exactly the source bytes (for NumPy sources: the bytes of the array in the destination dtype, converted once iff the dtypes differ), lengths unchanged, source untouched, extracted copies are not views, typed views are windows on the buffer's own storage of exactly prod(shape)*itemsize bytes at the requested offset. AUXILIARY (concrete, no solver verdict, labelled in the evidence): NumPy's conversion and source-layout handling on the real buffers -- 10x10 dtype pairs x 8 source layouts (C, Fortran, transposed, strided, permuted 3-D, empty, 0-d) x offsets, incl. aliasing of the typed views.",
@@ -74,8 +74,25 @@ CHECKS = {
   "symbolic execution with solver-variable edges = bounded exhaustive path enumeration; replay with real classes and cffi"),
  "C16": (TV, "5/C16",
   "PARTIAL. For enumerated kernel templates the real specialize_source output of the four targets is parsed and the execution form of every vectorize_over block is read off the AST (CPU for-loop, OpenCL get_global_id assignment, CUDA index expression + guard); the launch geometry comes from symbolically executing the real KernelCupy.__call__ and KernelPyopencl.__call__ with symbolic n_threads and block size. z3 proves for ALL n >= 0 and block sizes 1..1024: the executed index set is exactly 0..n-1 on every target, the work-item -> index map is injective (exactly once), nothing runs for n = 0. The text-level claims (only_for_context, include_file, pass-through) are observed on the templates by locating marker statements in the parsed output (auxiliary, no solver verdict). Counterexamples are replayed by host-compiling every specialisation and driving it with a simulated launch.",
-  "8 templates (enumerated); n < 2^31, block <= 1024; S7 (int/np.ceil/float division on proxies) with lemma L2 proved each run from the IEEE-754 rounding axiom; GPU execution model as stated in evidence; arbitrary kernel sources, real devices and OpenMP scheduling are outside the claim.",
+  "11 templates (enumerated); n < 2^31, block <= 1024; S7 (int/np.ceil/float division on proxies) with lemma L2 proved each run from the IEEE-754 rounding axiom; GPU execution model as stated in evidence; arbitrary kernel sources, real devices and OpenMP scheduling are outside the claim.",
   "pycparser AST -> z3 execution predicates + symbolic execution of the real launch code; z3 unsat of set equality/injectivity for all n, block; simulated-launch replay"),
+}
+# additions of round 10 (DESIGN.md section 16), appended to the level notes
+EXTRA = {
+ "C01": " Placements also include `aligned` under default alignment 1 (quick) and 2, `packed` under 4 (thorough). Catalogue: three user-named subclasses of array classes.",
+ "C02": " A counterexample that does not reproduce from a fresh process is replayed after the generator calls that preceded it in the worker that found it (history-aware replay).",
+ "C05": " Scenario c05np: arrays created from dimensions given as small NumPy integers must carry the header words of the plain-integer case. History-aware replays as for C02.",
+ "C06": " History-aware replays as for C02.",
+ "C07": " History-aware replays as for C02.",
+ "C08": " Steps also bind plain data shaped exactly like the current referent (a new object must be created; the object bound before keeps its value).",
+ "C09": " A second copy of the (modified) original into the same explicit destination buffer: equal to the original as it is now, sharing nothing with the first copy.",
+ "C11": " Misuse class empty_shape: updates of another shape on arrays that hold no element.",
+ "C13": " Buffers are made by the real constructor on the symbolic container; every byte primitive also runs after a real XBuffer.grow() by a symbolic amount (solver) and, as an AUXILIARY concrete pass, on real buffers fresh and grown (byte_primitive_concrete_cases) -- state a buffer object keeps about its storage outside the container model (e.g. a memoryview) is only observable there.",
+ "C14": " Real-class cases (concrete observation): hybrid classes with declared dependencies, a union with a list of members and its own dependency, a plain struct depending on a hybrid class; sorting twice gives the same result and leaves inner types / dependencies unchanged; two cffi builds per case.",
+ "C16": " Templates include blocks whose bound is an expression (n/2, n-1, (n+1)/3): the CPU loop header and the CUDA guard must carry the annotated expression (OpenCL: once per work-item of the launch).",
+ "C17": " NumPy arguments also as transposed, F-ordered, column-block, reversed and strided views (pointer to the array's OWN first element; a kernel write reaches the array); unpickled duplicates of xobjects as arguments (pointer into the duplicate's storage).",
+ "C18": " Step setxa (real buffers only): array elements written through the underlying struct after the buffer grew under the dressed object. Catalogue: a hybrid class derived from another hybrid class.",
+ "C19": " Catalogue: a hybrid class derived from another hybrid class with its own fields and declared defaults; an object of the base class is turned into its dictionary form first.",
 }
 NA = {
 }
@@ -87,6 +104,7 @@ def main():
     for pid in ALL:
         if pid not in CHECKS: continue
         lvl, ref, text, note, tech = CHECKS[pid]
+        note = note + EXTRA.get(pid, "")
         checks.append({
             "property_id": pid,
             "quick_cmd": f"./run.sh {pid} quick",
